@@ -117,7 +117,8 @@ def validate_translation(em, rng, sizes=(3, 6, 13), which=('basex', 'daun', 'rba
                 parts = name.split('_')
                 try:
                     if parts[0] == 'daun' and parts[1] in ('forward', 'inverse') and 'daun' in which:
-                        direction, degree, rname, drname = parts[1], int(parts[2][3:]), parts[3], parts[4]
+                        direction, degree, rname, drname = parts[1], int(parts[2][3:]), parts[3], parts[-1]
+                        shape = parts[4] if len(parts) == 6 else '2d'
                         reg = DAUN_REG_VALUES[rname]
                         if reg == 's':
                             reg = sval
@@ -126,19 +127,19 @@ def validate_translation(em, rng, sizes=(3, 6, 13), which=('basex', 'daun', 'rba
                         dr = 1.0 if drname == 'dr1' else drval
                         cleanup()
                         B = abel.daun._bs_daun(n, degree)
-                        data = X
+                        data = X if shape == '2d' else (X[:1] if shape == 'onerow' else X[0])
                         if rname == 'nonneg':
                             src = np.abs(X)
                             data = src.dot(B)       # so that NNLS has a well defined answer
                         cleanup()
                         out, got = capture_locals('get_bs_cached', 'daun.py', ['LTL'], lambda: abel.daun.daun_transform(
                             data, reg=reg, degree=degree, dr=dr, direction=direction, basis_dir=None, verbose=False))
-                        env = dict(B=B, X=data, dr=dr, s=sval, n=n, h=h, nnls=lambda A, b: sp_nnls(A, b)[0])
+                        env = dict(B=B, X=data, x=data, dr=dr, s=sval, n=n, h=h, nnls=lambda A, b: sp_nnls(A, b)[0])
                         if 'LTL' in got:
                             env['LTL'] = np.asarray(got['LTL'], dtype=float)
                         val = d['ev'](env)
                         checked += 1
-                        e = rel_err(val, out)
+                        e = rel_err(np.ravel(val), np.ravel(out)) if shape != "2d" else rel_err(val, out)
                         if not e <= tol(B) * (1e3 if rname in ('diff', 'L2', 'L2c', 'num', 'nonneg') else 1):
                             fails.append('%s n=%d: generated term differs from daun_transform by %.2e' % (name, n, e))
                     elif parts[0] == 'daun' and parts[1] == 'tikhonov' and 'daun' in which:
@@ -163,10 +164,13 @@ def validate_translation(em, rng, sizes=(3, 6, 13), which=('basex', 'daun', 'rba
                             out = abel.basex._get_A(M, Mc, 0.0 if kind == 'exact' else sval, direction)
                             val = d['ev'](env)
                         elif parts[1] == 'matrix':
-                            direction, drname = parts[2], parts[3]
+                            direction, drname = parts[2], parts[-1]
+                            corr = (parts[3] == 'corr')
                             cleanup()
-                            out = np.array(abel.basex.get_bs_cached(n, 1.0, 0.0, False, None,
-                                                                    1.0 if drname == 'dr1' else drval, False, direction))
+                            out, got = capture_locals('get_bs_cached', 'basex.py', ['cor'], lambda: np.array(abel.basex.get_bs_cached(
+                                n, 1.0, 0.0, corr, None, 1.0 if drname == 'dr1' else drval, False, direction)))
+                            if corr:
+                                env['cor'] = np.asarray(got['cor'], dtype=float).ravel()
                             val = d['ev'](env)
                         elif parts[1] == 'core':
                             A = rng.normal(size=(n, n))
@@ -203,8 +207,11 @@ def validate_translation(em, rng, sizes=(3, 6, 13), which=('basex', 'daun', 'rba
                                     fails.append('%s Rmax=%d order=%d index %d: differs from abel.rbasex by %.2e'
                                                  % (name, Rmax, order, k, e))
                     elif parts[0] == 'dasch' and 'dasch' in which:
-                        method = '_'.join(parts[1:-1])
+                        shape = parts[-2] if parts[-2] in ('onerow', '1d') else '2d'
+                        method = '_'.join(parts[1:-1] if shape == '2d' else parts[1:-2])
                         drname = parts[-1]
+                        X0 = X
+                        X = X0 if shape == '2d' else (X0[:1] if shape == 'onerow' else X0[0])
                         dr = 1 if drname == 'dr1' else drval
                         if n < 3:
                             continue
@@ -212,15 +219,16 @@ def validate_translation(em, rng, sizes=(3, 6, 13), which=('basex', 'daun', 'rba
                         if method == 'onion_peeling':
                             D, got = capture_locals('_bs_onion_peeling', 'dasch.py', ['W'],
                                                     lambda: abel.dasch._bs_onion_peeling(n))
-                            env = dict(W=np.asarray(got['W'], dtype=float), X=X, dr=dr, n=n, h=h)
+                            env = dict(W=np.asarray(got['W'], dtype=float), X=X, x=X, dr=dr, n=n, h=h)
                         else:
                             D = abel.dasch.get_bs_cached(method, n, basis_dir=None)
-                            env = dict(D=np.array(D), X=X, dr=dr, n=n, h=h)
+                            env = dict(D=np.array(D), X=X, x=X, dr=dr, n=n, h=h)
                         cleanup()
                         fn = getattr(abel.dasch, method + '_transform')
                         out = fn(X, basis_dir=None, dr=dr, direction='inverse')
                         checked += 1
-                        e = rel_err(d['ev'](env), out)
+                        e = rel_err(np.ravel(d['ev'](env)), np.ravel(out)) if shape != '2d' else rel_err(d['ev'](env), out)
+                        X = X0
                         if not e <= 1e-9 * max(np.linalg.cond(np.array(D)), 1):
                             fails.append('%s n=%d: differs from abel.dasch by %.2e' % (name, n, e))
                 except Exception as ex:     # noqa
